@@ -104,6 +104,14 @@ def worker(case, led):
                 if t_ is not None:
                     terms.append(t_)
             terms += real_terms(model, rng, 2)
+        elif trial == 0 and flavour == "modes":
+            # every mode with its own kinetic and potential term plus bilinear couplings: each basis set's own parameters enter on every node
+            from renormalizer.model import Op
+            terms = []
+            for b_ in created:
+                terms += [Op("p^2", b_.dofs[0], 0.5), Op("x^2", b_.dofs[0], 0.5 * float(b_.omega) ** 2), Op("x", b_.dofs[0], float(rng.uniform(0.2, 0.8)))]
+            for b1_, b2_ in zip(created[:-1], created[1:]):
+                terms.append(Op("x", b1_.dofs[0]) * Op("x", b2_.dofs[0]) * float(rng.uniform(0.1, 0.5)))
         elif trial < ntr:
             terms = real_terms(model, rng, int(rng.integers(1, 6)) if not kind.startswith("hub") else int(rng.integers(5, 10)))
             # the construction must be covariant under a common scale of the coefficients (units): tiny and huge absolute values
@@ -211,7 +219,7 @@ def check(run):
     cases = []
     for s in seeds:
         for nn in (2, 3, 4, 5) if run.tier == "quick" else (2, 3, 4, 5, 6):
-            for fl in ("spin", "spinqn", "holstein"):
+            for fl in ("spin", "spinqn", "holstein", "modes"):
                 cases.append(("enum", nn, fl, s, run.tier))
     hubs = [(4, 1), (3, 2), (2, 3), (5, 1), (6, 1)] if run.tier == "quick" else [(4, 1), (3, 2), (2, 3), (5, 1), (4, 2), (3, 3), (5, 2), (6, 1), (7, 1)]
     for nch, nsets in hubs:
